@@ -22,7 +22,7 @@ pub fn gen_root(rng: &mut Rng, ver: WmoVersion, arbitrary_doodad_offsets: bool) 
     let mut tex_offsets = vec![]; let mut o = 0u32; for t in &textures { tex_offsets.push(o); o += t.len() as u32 + 1; }
     let materials: Vec<WmoMaterial> = (0..if textures.is_empty() { 0 } else { count(rng) }).map(|_| WmoMaterial { flags: WmoMaterialFlags::from_bits_truncate(rng.u32() & 0xFFF), shader: rng.below(7) as u32, blend_mode: rng.below(4) as u32,
         texture1: *rng.pick(&tex_offsets), emissive_color: col(rng), sidn_color: col(rng), framebuffer_blend: Color::default(), texture2: *rng.pick(&tex_offsets), diffuse_color: col(rng), ground_type: rng.below(9) as u32 }).collect();
-    let portals: Vec<WmoPortal> = (0..count(rng)).map(|_| WmoPortal { vertices: (0..4).map(|_| v3(rng)).collect(), normal: v3(rng) }).collect();
+    let portals: Vec<WmoPortal> = (0..count(rng)).map(|_| WmoPortal { vertices: (0..*rng.pick(&[4usize, 4, 4, 3, 5, 6, 2, 1, 0])).map(|_| v3(rng)).collect(), normal: v3(rng) }).collect();
     let portal_references: Vec<WmoPortalReference> = if portals.is_empty() { vec![] } else { (0..count(rng)).map(|_| WmoPortalReference { portal_index: rng.below(portals.len() as u64) as u16, group_index: rng.below(ng.max(1) as u64) as u16, side: *rng.pick(&[0u16, 1, 0xFFFF]) }).collect() };
     let visible_block_lists: Vec<Vec<u16>> = (0..count(rng)).map(|_| (0..*rng.pick(&[0usize, 0, 1, 3])).map(|_| rng.below(500) as u16).collect()).collect();
     let lights: Vec<WmoLight> = (0..count(rng)).map(|_| WmoLight { light_type: WmoLightType::Omni, position: v3(rng), color: col(rng), intensity: f(rng), rotation: [0.0, 0.0, 0.0, 1.0], attenuation_start: f(rng), attenuation_end: f(rng), use_attenuation: rng.chance(1, 2), properties: WmoLightProperties::Omni }).collect();
@@ -163,5 +163,24 @@ pub fn run(ctx: &mut Ctx) {
             Err(_) => ctx.out.oracle(false, "group-parser-panics-on-own-writer-output", &gdesc),
         }
         ctx.out.oracle(true, "", "");
+    }
+    // conversion of a group between every pair of versions: the flag word afterwards is the one the model assigns to the
+    // target version (nothing representable in the target is dropped, nothing it does not know is kept)
+    {
+        let all = [WmoVersion::Classic, WmoVersion::Tbc, WmoVersion::Wotlk, WmoVersion::Cataclysm, WmoVersion::Mop, WmoVersion::Wod, WmoVersion::Legion, WmoVersion::Bfa];
+        for (fi, from) in all.iter().enumerate() { for (ti, to) in all.iter().enumerate() {
+            if fi == ti { continue; }
+            for fl in [0x3FFFFu32, 0x2C000, 0x10000, 0x4001, 0x8008, 0x20040, ctx.rng.u32() & 0x3FFFF] {
+                let mut g = gen_group(&mut ctx.rng);
+                g.header.flags = WmoGroupFlags::from_bits_truncate(fl);
+                let before = g.header.flags.bits();
+                let (f2, t2) = (*from, *to);
+                match std::panic::catch_unwind(move || { let r = WmoConverter::new().convert_group(&mut g, t2, f2); (g, r) }) {
+                    Ok((g, Ok(()))) => { ctx.out.case(&format!("c15gflags {ti} {before}"), &g.header.flags.bits().to_string()); ctx.out.stat("c15.group_flags_conversion"); }
+                    Ok((_, Err(e))) => ctx.out.known("convert-error", &format!("group {from:?}->{to:?}: {e}")),
+                    Err(_) => ctx.out.oracle(false, "converter-panics", &format!("group {from:?}->{to:?} flags {fl:#x}")),
+                }
+            }
+        } }
     }
 }
